@@ -78,6 +78,15 @@ def snd_full(mask, tiers=("thorough",)):
              desc="whole real delta computation, recorded ops == reference model at every truncation point", timeout=3000, mem=40)
 
 
+def snd_pat(mask, pattern, label, tiers, covers=()):
+    return H(f"snd_pat_{m3(mask)}_{label}", f"snd_full_pat({mask}, 7, {pattern})", macro="h_rec", tiers=tiers, covers=list(covers),
+             rules=R_STATE + [(r"verif_state::snd_full_pat", None, 7)],
+             funcs=F_SENDER + ["state.rs::SortedStaleNodes::*", "state.rs::StaleNode::stale_key_values", "state.rs lines 676-699 (stop at first refusal, SetMaxVersion iff nothing added)"],
+             cuts=[CUT_LISTENER, CUT_REC, "single-member shuffle cut"],
+             bounds=dict(B3, sender_mask=m3(mask), digest="symbolic u64 pair", acceptance_pattern=f"{label} (A = the i-th serializer call fits, R = it does not; also covers 'a large op is refused, a later smaller one fits')"),
+             desc="whole real delta computation with a concrete acceptance pattern of the serializer calls, recorded ops == reference model", timeout=2400, mem=20)
+
+
 def sender_pieces(quick_full=False):
     hs = [snd_decision(False, ("quick", "thorough")), snd_decision(True, ("thorough",)),
           snd_offer(0b011, ("quick", "thorough")), snd_offer(0b000, ("thorough",)), snd_offer(0b111, ("thorough",)),
@@ -99,7 +108,7 @@ def plan():
     P["C01"] = [c14_scalar, snd_decision(False, ("quick", "thorough")), snd_decision(True, ("thorough",)),
                 snd_offer(0b011, ("quick", "thorough")), snd_offer(0b111, ("thorough",))] + \
         [rcv("C01", "P_C01", m, own=True, ledger=False, tiers=("quick", "thorough") if m in (0b001, 0b110) else ("thorough",)) for m in MASKS3] + \
-        [snd_full(0b000), snd_full(0b001)]
+        [snd_full(0b000), snd_full(0b001), snd_pat(0b001, 0b111111, "AAAAAA", ("quick", "thorough"), ["SetMaxVersion for an empty tail"]), snd_pat(0b001, 0b101, "ARA", ("thorough",), ["truncated between key-values"])]
     # ---------------- C02 (ledger invariants I3, I4)
     P["C02"] = [rcv("C02", "P_C02", m, own=False, ledger=True, vmax=6, tiers=("quick", "thorough") if m in (0b001, 0b011) else ("thorough",)) for m in MASKS3] + \
         [snd_content(0b011, ("quick", "thorough")), snd_content(0b111, ("thorough",)), snd_decision(False, ("quick", "thorough"))] + \
@@ -107,7 +116,7 @@ def plan():
            covers=[], funcs=F_APPLY, cuts=[CUT_LISTENER], bounds=dict(B3, receiver_mask=m3(m)), desc="KNOWN-FINDING witness KF-1", mem=8, timeout=1500) for m in (0b001, 0b011)]
     # ---------------- C03 (I1, I2 + grouping + heartbeat in other modules)
     P["C03"] = [rcv("C03", "P_C03", m, own=False, ledger=True, vmax=6, tiers=("quick", "thorough") if m in (0b000, 0b011) else ("thorough",)) for m in MASKS3] + \
-        [snd_content(0b011, ("quick", "thorough")), snd_content(0b111, ("thorough",)), snd_full(0b001)]
+        [snd_content(0b011, ("quick", "thorough")), snd_content(0b111, ("thorough",)), snd_full(0b001), snd_pat(0b001, 0b110, "RAA", ("quick", "thorough")), snd_pat(0b001, 0b111111, "AAAAAA", ("thorough",), ["SetMaxVersion for an empty tail"])]
     # ---------------- C04
     P["C04"] = [H(f"c04_local_{m3(m)}", f"c04_local_write({m}, 7)", tiers=("quick", "thorough") if m in (0b011,) else ("thorough",),
                   covers=["no-op write", "effective delete"] if m else [], funcs=["state.rs::NodeState::{set,set_with_ttl,delete,delete_after_ttl,set_with_version,set_versioned_value}"],
@@ -210,7 +219,8 @@ def plan():
     P["C07"] = [syn_budget(1, ("quick", "thorough")), syn_budget(2, ("thorough",)), ser_ub(3, 5, 3, 8, 3, ("quick", "thorough")), ser_ub(6, 7, 1, 8, 2, ("quick", "thorough")), ser_ub(8, 8, 1, 8, 3, ("quick", "thorough")), ser_ub(8, 8, 8, 8, 3, ("thorough",)), snd_content(0b011, ("quick", "thorough")),
                 snd_decision(False, ("quick", "thorough")), ser_ub(1, 1, 1, 8, 3, ("thorough",)), ser_ub(7, 2, 8, 8, 3, ("thorough",)), ser_ub(16, 3, 14, 16, 3, ("thorough",)), ser_ub(5, 12, 16, 16, 3, ("thorough",)),
                 snd_content(0b111, ("thorough",)), snd_content(0b001, ("thorough",)), snd_content(0b101, ("thorough",)), snd_decision(True, ("thorough",)),
-                snd_full(0b000), snd_full(0b001)]
+                snd_full(0b000), snd_full(0b001), snd_pat(0b001, 0b110, "RAA", ("quick", "thorough")), snd_pat(0b001, 0b101, "ARA", ("quick", "thorough"), ["truncated between key-values"]),
+                snd_pat(0b001, 0b111111, "AAAAAA", ("thorough",), ["SetMaxVersion for an empty tail"])]
     # ---------------- C09
     def c09(mask, n, tiers):
         return H(f"c09_{m3(mask)}_{n}", f"c09_hostile_delta({mask}, {n}, 7)", tiers=tiers, covers=["reset taken", "incremental"] if n else ["reset taken"], funcs=F_APPLY, cuts=[CUT_LISTENER],
